@@ -178,10 +178,11 @@ PROPS['C09']['rule'] += ('; K:flightlab: real initialCryptoStream + packetPacker
                          'every datagram parsed by the wire parser and by an independent byte reader')
 PROPS['C15'] = {
     'level': 'fault_enumeration', 'budget': {'quick': 70, 'thorough': 1200},
-    'parts': [{'sim': 'streamsmap', 'share': 2}, {'sim': 'streamsmap', 'mode': 'sweep', 'share': 1}, {'sim': 'limits', 'share': 1, 'env': {'VERIF_ORACLES': 'C12'}}],
+    'parts': [{'sim': 'streamsmap', 'share': 2}, {'sim': 'streamsmap', 'mode': 'sweep', 'share': 1}, {'sim': 'limits', 'share': 1, 'env': {'VERIF_ORACLES': 'C12'}},
+              {'sim': 'transfer', 'share': 1.5, 'env': {'VERIF_ORACLES': 'C01'}}],
     'rule': 'seeded histories over the real streamsMap (both perspectives, both stream types, limits 0-5 and up to 40): peer frames with arbitrary, skipped, completed and out-of-limit stream IDs and wrong directions, MAX_STREAMS, '
             'concurrent Open/OpenSync/Accept callers with cancellation (strict histories with quiescence between calls check FIFO; burst histories with seeded scheduler perturbation check the order-free clauses), completions in any order, 0-RTT reset, close; '
-            'plus a bounded sweep of all histories up to length 4 (quick) / 5 (thorough) over a 14-op alphabet with limits 0-2; non-trivial = adversarial op fired or non-trivial history; distinct = distinct abstract histories; W:limits (shared with C12) for the wiring of the limit into whole connections: what a client advertises (spec-driven, or plain with a Config whose bidirectional and unidirectional limits differ) is what it enforces - a conformant server can open exactly the advertised number of streams, and a stream right behind the limit in force, played by the simulator with the session keys, is answered with STREAM_LIMIT_ERROR',
+            'plus a bounded sweep of all histories up to length 4 (quick) / 5 (thorough) over a 14-op alphabet with limits 0-2; non-trivial = adversarial op fired or non-trivial history; distinct = distinct abstract histories; W:limits (shared with C12) for the wiring of the limit into whole connections: what a client advertises (spec-driven, or plain with a Config whose bidirectional and unidirectional limits differ) is what it enforces - a conformant server can open exactly the advertised number of streams, and a stream right behind the limit in force, played by the simulator with the session keys, is answered with STREAM_LIMIT_ERROR; W:transfer with few concurrent incoming streams and slow consumers: the credit that completed streams earn must reach the blocked opener also on an otherwise idle connection (judged by the end-to-end liveness oracle)',
     'real_vs_stub': 'real: streamsMap, incoming/outgoing maps, Stream/SendStream/ReceiveStream objects, flow controllers; stub: peer, connection (fake sender)',
     'assumptions': [],
     'level_text': 'bounded exhaustive sweep of short histories plus seeded search over long and concurrent histories against a reference model of limits, credit, ID discipline, FIFO service and exactly-once acceptance',
